@@ -3,8 +3,8 @@
 Every enumerated program goes through `cppcheck --clang --dump` of the ASan+UBSan build (leak check off):
   S  the C08 scope-grammar corpus (all programs with <= 3 scopes, with/without global x; C subset as C),
      150 programs per file (clang runs once per file inside cppcheck)
-  E  expression functions: every expression with 1 operator over 10 leaves / 30 operators and the unary-rooted
-     expressions with 2 operators, as C and C++; ill-typed ones are dropped after a `clang -fsyntax-only` pass,
+  E  expression functions: every expression with 1 operator over 10 leaves / 32 operators (thorough: also all
+     2-operator expressions over 4 leaves / 18 operators), as C and C++; ill-typed ones are dropped after a `clang -fsyntax-only` pass,
      the accepted ones re-rendered 400 per file (analysed with --clang=<wrapper adding -w>, because any clang
      warning makes the import stop with an internal error, which exempts the whole file)
   P  one translation unit per language feature (67 C++, 35 C snippets: statement kinds, casts, initialisers,
@@ -82,23 +82,31 @@ def analyse(job):
             wp = ws.write("clangw", "#!/bin/sh\nexec clang -w \"$@\"\n")
             os.chmod(wp, 0o755)
             clangopt = "--clang=" + wp
-        r = run.cppcheck(["-q", clangopt, "--dump", TEMPLATE] + names, ws.dir, variant="asan",
-                         env={"ASAN_OPTIONS": "detect_leaks=0:abort_on_error=0", "UBSAN_OPTIONS": "print_stacktrace=1"},
-                         timeout=job.get("timeout", 1500))
-        err = r.text_err()
-        crashed = r.timed_out or r.rc < 0 or r.rc >= 128 or RE_SAN.search(err) is not None
-        if crashed:
-            done = [n for n in names if os.path.exists(os.path.join(ws.dir, n + ".dump"))]
-            culprit = next((n for n in names if n not in done), names[-1])
+        names.sort()
+        remaining = list(names)
+        ierr = {}
+        err = ""
+        crashed_files = set()
+        while remaining:
+            r = run.cppcheck(["-q", clangopt, "--dump", TEMPLATE] + remaining, ws.dir, variant="asan",
+                             env={"ASAN_OPTIONS": "detect_leaks=0:abort_on_error=0", "UBSAN_OPTIONS": "print_stacktrace=1"},
+                             timeout=job.get("timeout", 1500))
+            err = r.text_err()
+            for line in err.splitlines():
+                parts = line.split("\t")
+                if len(parts) == 3 and parts[1] in INTERNAL:
+                    ierr.setdefault(parts[0], []).append(parts[2][:160])
+            if not (r.timed_out or r.rc < 0 or r.rc >= 128 or RE_SAN.search(err) is not None):
+                break
+            # crash / sanitizer report / hang: the first file that was neither dumped nor answered with an internal error
+            unproc = [n for n in remaining if not os.path.exists(os.path.join(ws.dir, n + ".dump")) and n not in ierr]
+            culprit = unproc[0] if unproc else remaining[-1]
+            crashed_files.add(culprit)
             res["problems"].append({"key": "crash:" + crash_signature(r), "file": culprit,
                                     "msg": "cppcheck --clang rc=%s timed_out=%s: %s" % (r.rc, r.timed_out, err[-1500:]),
                                     "source": dict((f[0], f[1]) for f in files)[culprit], "program": None})
-            names = done
-        ierr = {}
-        for line in err.splitlines():
-            parts = line.split("\t")
-            if len(parts) == 3 and parts[1] in INTERNAL:
-                ierr.setdefault(parts[0], []).append(parts[2][:160])
+            remaining = [n for n in unproc if n != culprit]
+        names = [n for n in names if n not in crashed_files]
         if "Failed to execute" in err or "Failed to execute" in r.text_out():
             res["harness"] = "clang could not be run by cppcheck: " + (err + r.text_out())[-400:]
             return res
@@ -165,12 +173,12 @@ def work(job):
 
 
 def jobs_for(tier):
-    # P: snippets, 6 files per invocation
+    # P: snippets, 17 files per invocation (the ASan build needs seconds to start, clang runs once per file anyway)
     for lang, table, ext in (("cpp", featgen.SNIPPETS_CPP, ".cpp"), ("c", featgen.SNIPPETS_C, ".c")):
         names = sorted(table)
-        for i in range(0, len(names), 6):
+        for i in range(0, len(names), 17):
             yield {"family": "P", "lang": lang,
-                   "files": [("p_%s%s" % (n, ext), table[n], {"snippet": n}) for n in names[i:i + 6]]}
+                   "files": [("p_%s%s" % (n, ext), table[n], {"snippet": n}) for n in names[i:i + 17]]}
     # S: scope corpus
     nmax = 3
     for lang in ("cpp", "c"):
@@ -186,7 +194,9 @@ def jobs_for(tier):
                                   {"ranges": ranges, "tags": tags, "items": [scopegen.show(t) for t in chunk]})]}
     # E: expression functions
     for lang in ("cpp", "c"):
-        exprs = list(featgen.expressions(1)) + list(featgen.expressions(2, full=(tier == "thorough")))
+        exprs = list(featgen.expressions(1))
+        if tier == "thorough":
+            exprs += list(featgen.expressions(2, full=True))
         for i in range(0, len(exprs), 400):
             yield {"family": "E", "lang": lang,
                    "files": [("e%d.%s" % (i, lang), None, {"exprs": exprs[i:i + 400], "tag0": i})]}
@@ -277,8 +287,8 @@ def main(tier, replay=None):
                        "the begin/end of clang's expression range, a declaration through (candidate position, name)"]
     return ctx.finish(
         rule="S: all scope-grammar programs with <= 3 scopes%s (x2 global x; C subset as C); E: all 1-operator expressions "
-             "and %s 2-operator expressions that clang accepts, as C and C++; P: %d C++ and %d C one-feature translation "
+             "%s that clang accepts, as C and C++; P: %d C++ and %d C one-feature translation "
              "units; evaluation = one program whose file the import processed; distinct/nontrivial = a program (S, E) with "
              "at least one judged linked variable use, or a snippet file (P) whose dump was checked" % (
                  " plus 4-scope chains" if tier == "thorough" else "",
-                 "all" if tier == "thorough" else "the unary-rooted", len(featgen.SNIPPETS_CPP), len(featgen.SNIPPETS_C)))
+                 "and all 2-operator expressions" if tier == "thorough" else "", len(featgen.SNIPPETS_CPP), len(featgen.SNIPPETS_C)))
